@@ -8,7 +8,9 @@ of the property on the implementation against a dict-of-int oracle:
 * request (+ max fee when asked) <= sum of the selected, in ADA and in every asset;
 * change == sum of the selected - request;
 * len(selected) <= max_input_count;
-* the pool (list and every entry's CBOR bytes) is unchanged;
+* the pool is unchanged: the list, the identity of every entry and a structural image of everything its bytes are
+  computed from on every case; the CBOR bytes themselves (`utxo.to_cbor()`, 3 ms per entry under typeguard) for pools
+  of size <= 2 and every 8th case (every 2nd in the thorough tier);
 * explicit failures are truthful: largest-first `InsufficientUTxOBalanceException` only when the pool cannot cover the
   request (or request + minimum change in min-change mode); `MaxInputCountExceededException` only when more than the
   limit inputs were selected / are needed by the largest-first order; nothing but a selection error escapes.
@@ -485,6 +487,11 @@ def check_select(ctx, case):
             if kind == "insufficient":
                 ctx.violation("random-improve raises InsufficientUTxOBalanceException (never raised by its code)",
                               case, None, res)
+            if kind == "depleted" and o_covers(req, total_pool):
+                # every input was consumed although the pool covers the request: only the min-change top-up may do that
+                if not (case["min"] and any(c["depth"] == 1 for c in probed()["probe"].calls)):
+                    ctx.violation("random-improve reports depleted inputs although the pool covers the request",
+                                  case, {"pool_coin": total_pool[0], "request_coin": req[0]}, res)
     # distribution
     if case["min"]:
         if sname == "lf":
@@ -649,7 +656,8 @@ def run(ctx):
         "pool and request quantities are non-negative and inputs pairwise distinct (points outside: correspondence only)",
         "injected indices are natural numbers (negative ones are Python negative indexing, not modelled)",
         "fee parameters are exact rationals (ints / Fractions); float parameters are not modelled",
-        "pool immutability: by construction in the pure model; on the implementation by byte snapshot of every entry",
+        "pool immutability: by construction in the pure model; on the implementation by structural snapshot of every "
+        "entry on every case and CBOR byte snapshot on a sample (see histogram pool-snapshot:cbor-bytes)",
     ]
     ctx.extra["trusted"] = ["min_lovelace_post_alonzo / max_tx_fee are modelled by Pyc/Model/Output.lean (their own "
                             "properties are checked elsewhere); here they are compared through the selection results"]
@@ -658,8 +666,8 @@ def run(ctx):
         check_select(ctx, c)
 
     # ---- (B) exhaustive pools of size <= 4
-    combos_lf = ctx.budget(2, 8)
-    combos_ri = ctx.budget(1, 6)
+    combos_lf = ctx.budget(2, 6)
+    combos_ri = ctx.budget(1, 4)
     all_flags = [(l, f, m) for l in (None, 1, 2, 3, 4) for f in (False, True) for m in (False, True)]
     for size in range(0, 5):
         for seq in itertools.product(range(3), repeat=size):
@@ -683,8 +691,8 @@ def run(ctx):
                 return
 
     # ---- (C) all index choices over small pools
-    trees = ctx.budget(14, 400)
-    budget = ctx.budget(180, 4000)
+    trees = ctx.budget(18, 150)
+    budget = ctx.budget(180, 2500)
     small = [seq for size in range(1, 4) for seq in itertools.product(range(3), repeat=size)]
     for _ in range(trees):
         seq = rng.choice(small)
@@ -700,7 +708,7 @@ def run(ctx):
             return
 
     # ---- (D) random pools up to size 10
-    for _ in range(ctx.budget(1500, 120000)):
+    for _ in range(ctx.budget(2500, 60000)):
         n = rng.choice([0, 1, 2, 3, 4, 5, 5, 6, 7, 8, 9, 10])
         amounts = [rand_amount(rng, stored_zero=True) for _ in range(n)]
         params = rng.choice(PARAM_SETS)
@@ -721,7 +729,7 @@ def run(ctx):
             return
 
     # ---- (E) outside the hypotheses: correspondence only
-    for _ in range(ctx.budget(120, 6000)):
+    for _ in range(ctx.budget(120, 3000)):
         n = rng.randint(1, 6)
         amounts = [rand_amount(rng) for _ in range(n)]
         kind = rng.choice(["neg-pool", "neg-request", "bad-params"])
